@@ -15,7 +15,8 @@ import (
 type emitter struct {
 	g    *fw.GenCtx
 	kind string
-	max  int
+	max  int // a construct boundary (mark) closes the batch once it holds this many executions
+	hard int // add closes the batch at this size regardless of boundaries
 	cur  []Exec
 	n    map[string]int
 }
@@ -23,7 +24,7 @@ type emitter struct {
 func (em *emitter) add(e Exec) {
 	em.cur = append(em.cur, e)
 	em.n[e.Fam]++
-	if len(em.cur) >= 4*em.max {
+	if len(em.cur) >= em.hard {
 		em.flush()
 	}
 }
@@ -58,31 +59,31 @@ func famEnabled(f string) bool {
 
 func gen(g *fw.GenCtx) {
 	counts := map[string]int{}
-	mk := func(kind string, max int) *emitter { return &emitter{g: g, kind: kind, max: max, n: counts} }
+	mk := func(kind string, max, hard int) *emitter { return &emitter{g: g, kind: kind, max: max, hard: hard, n: counts} }
 	var f8 []Exec // representatives collected by F1/F2/F3 for the tester path
 	if famEnabled("F1") {
-		f8 = append(f8, genF1(g, mk("F1/assign", 150))...)
+		f8 = append(f8, genF1(g, mk("F1/assign", 150, 700))...)
 	}
 	if famEnabled("F2") {
-		f8 = append(f8, genF2(g, mk("F2/builtin", 200))...)
+		f8 = append(f8, genF2(g, mk("F2/builtin", 1, 3000))...)
 	}
 	if famEnabled("F3") {
-		f8 = append(f8, genF3(g, mk("F3/recursion", 1))...)
+		f8 = append(f8, genF3(g, mk("F3/recursion", 1, 1))...)
 	}
 	if famEnabled("F4") {
-		genF4(g, mk("F4/lifecycle", 100))
+		genF4(g, mk("F4/lifecycle", 100, 400))
 	}
 	if famEnabled("F5") {
-		genF5(g, mk("F5/declarations", 40))
+		genF5(g, mk("F5/declarations", 30, 120))
 	}
 	if famEnabled("F6") {
-		genF6(g, mk("F6/include", 1))
+		genF6(g, mk("F6/include", 1, 1))
 	}
 	if famEnabled("F7") {
-		genF7(g, mk("F7/requests", 100))
+		genF7(g, mk("F7/requests", 100, 300))
 	}
 	if famEnabled("F8") {
-		genF8(g, mk("F8/tester", 1), f8)
+		genF8(g, mk("F8/tester", 1, 1), f8)
 	}
 	if os.Getenv("C08_COUNTS") != "" {
 		b, _ := json.Marshal(counts)
